@@ -54,6 +54,7 @@ def build_world() -> World:
     f("Node", "entry", ListSort(Act))
     f("Node", "exit", ListSort(Act))
     f("Node", "output", OPAQUE)
+    f("Node", "max_iterations", INT)
     w.inline_prop("Node", "is_final", "xstate_statemachine.models", "StateNode.is_final")
     w.inline_prop("Node", "is_atomic", "xstate_statemachine.models", "StateNode.is_atomic")
 
@@ -100,6 +101,11 @@ def build_world() -> World:
     s("_plugins", ListSort(Plugin))
     s("_subscribers", ListSort(Callable_))
     s("_emit_listeners", DictSort(STR, ListSort(Callable_)))
+    s("_event_queue", ListSort(Ev))            # collections.deque, modelled as a list (append / popleft / clear)
+    # ghost state of C04 (exists only in verification conditions):
+    s("g_accepted", ListSort(Ev))              # every event accepted by send()/send_events() while running, in order
+    s("g_removed", ListSort(Ev))               # every event taken off the queue front (processed or discarded), in order
+    s("g_ndiscarded", INT)                     # how many of those were discarded without being processed
 
     # ------------------------------------------------------------------ exceptions
     e = w.exc
